@@ -254,6 +254,67 @@ theorem typeset_long_rejected {specs : List TSpec} {ln : Bool} {pre : List Str} 
     | false => simp [shape, signChar, hname rfl]
   simp [argDefect, hshape, hd]
 
+/-- ★ whatever `parse` accepts, every occurrence it delivers carries a spec OF THE TABLE (found under its letter or as
+    the single candidate of a long name) — what C16's `c20_parse_feeds_builtin_model` asks of the occurrences -/
+theorem typeset_occurrences_from_table (specs : List TSpec) (ln : Bool) : ∀ (args : List Str) (os : List Occ) (ops : List Str),
+    parse specs ln args = .ok (os, ops) → ∀ o ∈ os, o.spec ∈ specs := by
+  unfold parse
+  intro args
+  induction args with
+  | nil => intro os ops h; simp [parseLoop] at h; simp [h.1]
+  | cons a rest ih =>
+    intro os ops h
+    rw [parseLoop_cons] at h
+    cases hs : shape a with
+    | separator => simp [hs] at h; simp [h.1]
+    | operand => simp [hs] at h; simp [h.1]
+    | group negate letters =>
+      simp only [hs] at h
+      cases h1 : shortLoop specs negate letters with
+      | error e => simp [h1] at h
+      | ok o1 =>
+        simp only [h1] at h
+        cases h2 : parseLoop specs ln rest with
+        | error e => simp [h2, prepend] at h
+        | ok q =>
+          obtain ⟨o2, ops2⟩ := q
+          simp [h2, prepend] at h
+          obtain ⟨rfl, rfl⟩ := h
+          intro o ho
+          rcases List.mem_append.1 ho with ho | ho
+          · exact (shortLoop_specs_mem specs negate letters o1 h1 o ho).1
+          · exact ih o2 ops2 h2 o ho
+    | long negate name =>
+      simp only [hs] at h
+      cases h1 : longResolve (longCandidates specs name) negate ln with
+      | error e => simp [h1] at h
+      | ok o1 =>
+        simp only [h1] at h
+        cases h2 : parseLoop specs ln rest with
+        | error e => simp [h2, prepend] at h
+        | ok q =>
+          obtain ⟨o2, ops2⟩ := q
+          simp [h2, prepend] at h
+          obtain ⟨rfl, rfl⟩ := h
+          intro o ho
+          simp at ho
+          rcases ho with rfl | ho
+          · unfold longResolve at h1
+            cases hc : longCandidates specs name with
+            | nil => simp [hc] at h1
+            | cons s more =>
+              simp only [hc] at h1
+              split at h1
+              · simp at h1
+              · split at h1
+                · simp at h1
+                · split at h1
+                  · simp at h1
+                  · simp at h1; subst h1
+                    have : s ∈ longCandidates specs name := by rw [hc]; simp
+                    exact (List.mem_filter.1 this).1
+          · exact ih o2 ops2 h2 o ho
+
 /-! ## the re-extracted tables -/
 
 def ofRow (r : Char × List Char × Nat) : TSpec :=
